@@ -144,9 +144,10 @@ def suite_legacy(seed, tier):
     from fractions import Fraction
     ties = 0
     tie_thrs = [Fraction(k, 20) for k in range(2, 19)]
-    rng.shuffle(tie_thrs)
-    for tq in tie_thrs[: (6 if tier == "quick" else 17)]:
-        for m in ([1, 5, 9] if tier == "quick" else [1, 2, 5, 9, 10, 13]):
+    if tier != "quick":
+        tie_thrs += [Fraction(k, 100) for k in range(11, 90, 3) if k % 5]
+    for tq in tie_thrs:
+        for m in ([1, 2, 5, 9, 10] if tier == "quick" else [1, 2, 3, 5, 7, 9, 10, 13]):
             inter, union = tq.numerator * m, tq.denominator * m
             if union > 1200:
                 continue
